@@ -155,6 +155,12 @@ type gzipResponseWriter struct {
 // example, a backend system that calculates Content-Length would
 // be wrong because it doesn't know it's being gzipped.
 func (w *gzipResponseWriter) WriteHeader(code int) {
+	if code < 100 || code > 999 {
+		// net/http refuses such a status by panicking: nothing is sent, and
+		// the response that whoever recovers writes is the one to look at
+		w.ResponseWriterWrapper.WriteHeader(code)
+		return
+	}
 	if isInformational(code) {
 		// an informational response (such as 103 Early Hints)
 		// goes out as it is; the final header is still to come
